@@ -31,6 +31,7 @@ type Msg struct {
 	Sz    int    `json:"sz"`
 	Topic string `json:"topic"`
 	P     int    `json:"p"`
+	Hv    int    `json:"hv,omitempty"` // > 0: the message carries one header whose value has this many bytes
 }
 
 type Step struct {
@@ -184,14 +185,24 @@ func goid() uint64 {
 }
 
 var (
-	runsMu sync.RWMutex
-	runs   = map[*kafka.Writer]*run{}
+	runsMu    sync.RWMutex
+	runs      = map[*kafka.Writer]*run{}
+	batchRuns = map[interface{}]*run{} // batch -> run, for hooks that carry no Writer
 )
 
 // InstallHook routes the hook events of package kafka to the run that owns the Writer.
 func InstallHook() {
 	kafka.VerifHook = func(ev string, args ...interface{}) {
 		if len(args) == 0 {
+			return
+		}
+		if ev == "bq.put" { // carries the batch only; its run was registered when the batch was created
+			runsMu.RLock()
+			r := batchRuns[args[0]]
+			runsMu.RUnlock()
+			if r != nil {
+				r.hook(ev, args)
+			}
 			return
 		}
 		w, ok := args[0].(*kafka.Writer)
@@ -247,6 +258,14 @@ func (r *run) batchID(p interface{}) int { // under recorder lock
 func (r *run) hook(ev string, a []interface{}) {
 	r.gates.pass("hook:" + ev)
 	switch ev {
+	case "bq.put":
+		// entry of batchQueue.Put, before the queue's lock: a pure scheduler gate (no event; the hand-over itself
+		// is recorded by pw.put / pw.timer / pw.close under the partition mutex).  Holding gate "bqput:<batch>"
+		// delays the enqueueing of one batch, which must also delay everything ordered after it.
+		b := ptr(a[0])
+		var id int
+		r.rec.EmitWith(func() trace.Event { id = r.batchID(b); return nil })
+		r.gates.pass(fmt.Sprintf("bqput:%d", id))
 	case "w.enter":
 		c := r.callOfG()
 		r.rec.Emit(trace.Event{"ev": "enter", "c": c, "ok": a[0].(bool)})
@@ -273,6 +292,9 @@ func (r *run) hook(ev string, a []interface{}) {
 	case "pw.batch":
 		c := r.callOfG()
 		p, b := ptr(a[0]), ptr(a[1])
+		runsMu.Lock()
+		batchRuns[b] = r
+		runsMu.Unlock()
 		r.rec.EmitWith(func() trace.Event {
 			return trace.Event{"ev": "pw.batch", "c": c, "pw": r.pwID(p), "b": r.batchID(b)}
 		})
@@ -318,6 +340,44 @@ func (r *run) hook(ev string, a []interface{}) {
 			return trace.Event{"ev": "pw.close", "pw": r.pwID(p), "b": r.batchID(b)}
 		})
 	}
+}
+
+// zigzag varint length, written here independently of the library
+func varintLen(v int64) int {
+	u := uint64((v << 1) ^ (v >> 63))
+	n := 1
+	for u >= 0x80 {
+		u >>= 7
+		n++
+	}
+	return n
+}
+
+// headerExtra is what one header {"h": value of hv bytes} adds to the size of a message
+// (the header count varint is 1 byte with or without headers).
+func headerExtra(hv int) int {
+	if hv <= 0 {
+		return 0
+	}
+	return varintLen(1) + 1 + varintLen(int64(hv)) + hv
+}
+
+// makeMessage builds the kafka.Message for script message (c, i): total size sz, optional header.
+func makeMessage(c, i int, m Msg) kafka.Message {
+	msg := kafka.Message{Topic: m.Topic, Value: makeValue(c, i, m.Sz-headerExtra(m.Hv))}
+	if m.Hv > 0 {
+		hv := make([]byte, m.Hv)
+		for k := range hv {
+			hv[k] = 'h'
+		}
+		msg.Headers = []kafka.Header{{Key: "h", Value: hv}}
+	}
+	return msg
+}
+
+// MessageSize is the writer's size measure of the message makeMessage builds.
+func MessageSize(c, i int, m Msg) int {
+	return ValueSize(c, i, m.Sz-headerExtra(m.Hv)) + headerExtra(m.Hv)
 }
 
 // message values are "c.i|" followed by padding.
@@ -418,7 +478,7 @@ func (r *run) produce(q *produce.Request) (kafka.Response, error) {
 	topic := q.Topics[0].Topic
 	part := int(q.Topics[0].Partitions[0].Partition)
 	key := fmt.Sprintf("%s/%d", topic, part)
-	var ids []interface{}
+	ids := []interface{}{} // never nil: an empty produce request is recorded as "msgs": []
 	var raw []string
 	recs := q.Topics[0].Partitions[0].RecordSet.Records
 	for recs != nil {
